@@ -901,6 +901,9 @@ class Interp:
     def class_const(self, cls, attr):
         from . import extract
         for c in self.w.mro(cls):
+            if (c, attr) in self.w.const_overrides:
+                return self.w.const_overrides[(c, attr)](self)
+        for c in self.w.mro(cls):
             mod = self.w.classes.get(c, {}).get('module')
             if not mod:
                 continue
@@ -973,6 +976,14 @@ class Interp:
             n = z3.Length(base.t)
             self.implicit_raise(z3.And(-n <= i, i < n), 'IndexError', 'string index', node)
             return K.vstr(z3.SubString(base.t, z3.If(i >= 0, i, n + i), 1))
+        if isinstance(k, K.Ref):
+            i = simp(self.as_int(idx)) if isinstance(idx.kind, (K._Int, K._Bool)) else None
+            c = None
+            if i is not None and z3.is_int_value(i):
+                c = self.w.find_method(k.cls, '__getitem__%d' % i.as_long())
+            c = c or self.w.find_method(k.cls, '__getitem__')
+            if c is not None:
+                return self.call_contract(c, [base] if c.short != '__getitem__' else [base, idx], {}, node)
         raise Unsupported('subscript on %r (line %s)' % (k, getattr(node, 'lineno', '?')))
 
     def slice(self, base, sl, node):
